@@ -12,9 +12,17 @@
 //   * options::impl::is_flag and next_arg (the real .cpp files) on string_views over exactly-sized heap buffers
 // Outside the claim (not executable by the engine: libstdc++.so / libc / kernel): filesystem::file_size,
 // remove_extension, io::stream_to_string, read_chars, extract_from_string_locale, cast::dynamic (__dynamic_cast),
-// parse string entry points built on std::istringstream (the combinators themselves: C02), allocation failure,
-// catch handlers.  raw_vector / buffer totality is decided by C07's kernels, codecvt by C15's.
+// the std::istringstream construction inside parse_string (the rest of that path is imported from C02_entry.cpp),
+// allocation failure.
 //@property C01
+// The totality obligations (no UB, no out-of-bounds, no leak, termination, only documented exceptions) of these
+// kernels of other properties are decided again as part of C01's registry: buffer / raw_vector (C07), the codecvt
+// loop behind narrow/widen (C15), the options leaf functions (C03) and the string entry path of the parser (C02).
+//@import C07_buffer.cpp
+//@import C07_raw_vector.cpp only=^h_(push_back|pop_back|insert_one|insert_fill|erase_one|erase_range|resize|reserve|shrink)_
+//@import C15_codecvt.cpp
+//@import C03_leaf.cpp
+//@import C02_entry.cpp
 //@models rbtree
 #include "C06_arith.cpp"
 #include <fcppt/args_vector.hpp>
